@@ -1,11 +1,48 @@
 import NmVerif.Basic
 import NmVerif.Arr
 import NmVerif.Linalg
+import NmVerif.Lemmas.LinalgList
+import NmVerif.Lemmas.LinalgMatmul
 /-
   C16 — Linear-algebra routines equal their mathematical definitions.
-  Only property statements (+ non-vacuity examples, counterexample theorems) live here.
+  Only property statements (+ non-vacuity examples, counterexample theorems) live here; the proofs are in
+  Lemmas/Linalg*.lean.  MODEL and SPEC: NmVerif/Linalg.lean, Index/Matmul.lean, Index/MatmulBroadcast.lean.
+
+  Results are *symbolic*: a routine returns, for every destination index, the list of product terms
+  `(lhs index, rhs index)` it sums, in fold order; `valueAt` evaluates such a list on concrete data.
 -/
 namespace NmVerif.Props.C16
 open NmVerif NmVerif.Linalg
+
+/-! ### matmul -/
+
+/-- `index::shape_matmul` is NumPy's rule for every pair of operand shapes of rank ≥ 1 (accepted or refused):
+    `Nothing` exactly when the contracted extents differ or the batch parts do not broadcast; otherwise
+    broadcast(batch) ++ [m] (lhs not 1-d) ++ [n] (rhs not 1-d). -/
+theorem shapeMatmul_eq_numpy (sa sb : Shape) (ha : 1 ≤ sa.length) (hb : 1 ≤ sb.length) :
+    shapeMatmul sa sb = specMatmulShape sa sb := shapeMatmul_eq_spec sa sb ha hb
+
+example : shapeMatmul [2, 1, 3, 4] [5, 4, 2] = some [2, 5, 3, 2] := by decide
+example : shapeMatmul [4] [3, 4, 2] = some [3, 2] := by decide
+example : shapeMatmul [2, 3] [4, 2] = none := by decide
+
+/-- `view::matmul` (slicing implementation), both operands of rank ≥ 2, any batch ranks / broadcast pattern:
+    the shape is NumPy's and the terms summed for `out[β…, i, j]` are exactly
+    `a[β_a…, i, k] · b[β_b…, k, j]` for `k = 0, …, K-1`, in this order. -/
+theorem matmul_elem_eq_sum (sa sb dst : Shape) (ha : 2 ≤ sa.length) (hb : 2 ≤ sb.length)
+    (hacc : specMatmulShape sa sb = some dst) :
+    ∃ r, matmulV1 sa sb = some r ∧ r.shape = dst ∧
+      ∀ d, InShape d dst → r.get d = some (specMatmulTerms sa sb d) :=
+  matmulV1_eq_spec sa sb dst ha hb hacc
+
+example : specMatmulShape [2, 1, 2, 3] [4, 3, 2] = some [2, 4, 2, 2] := by decide
+example : specMatmulTerms [2, 1, 2, 3] [4, 3, 2] [1, 3, 0, 1] =
+    [([1, 0, 0, 0], [3, 0, 1]), ([1, 0, 0, 1], [3, 1, 1]), ([1, 0, 0, 2], [3, 2, 1])] := by decide
+
+/-- the unchanged `view::matmul` has no working 1-d promotion: the slicing reads `at(indices, -2)` of a 1-entry index
+    (known finding matmul.v1-1d-operand); NumPy's answer is the single sum `Σ_k a[k]·b[k]` -/
+theorem matmul_v1_1d_counterexample :
+    (matmulV1 [3] [3]).map (fun r => r.get []) = some none ∧
+    (specMatmul [3] [3]).map (fun r => r.get []) = some [([0], [0]), ([1], [1]), ([2], [2])] := by decide
 
 end NmVerif.Props.C16
